@@ -511,10 +511,18 @@ def neg_operand(f, bi):
 
 INDEX_SOURCES = ("Iterator::position", "Iterator::rposition", "Iterator>::position", "Iterator>::rposition", "::len", "Iterator::count", "core::str::<impl str>::find", "core::str::<impl str>::rfind", "::binary_search", "::get_index_of", "::get_full")
 def collection_index(f, op, depth=0):
-    """every origin of the operand is the result of position()/len()/count()/find() (possibly unwrapped with ?, ok_or, unwrap)"""
+    """every origin of the operand is the result of position()/len()/count()/find() (possibly unwrapped with ?, ok_or, unwrap),
+    or an overflow-checked sum of such values and small constants (lengths of live in-memory objects cannot add up beyond the address space)"""
+    if op[0] == "c":
+        v = mir.const_of(op)
+        return isinstance(v, int) and 0 <= v <= 65536
     os = mir.trace_op(f, op, transparent=mir.PASS_THROUGH + ("Option::<T>::ok_or_else", "Option::<T>::ok_or", "as std::ops::Try>::branch", "Option::<T>::unwrap_or"))
     if not os: return False
     for o in os:
+        if o.kind == "rv" and depth < 4:
+            rv = mir.rv_at(o.fn, *o.data)
+            if rv[0] == "bin" and rv[1] in ("AddWithOverflow", "Add") and collection_index(o.fn, rv[2], depth + 1) and collection_index(o.fn, rv[3], depth + 1): continue
+            return False
         if o.kind != "call": return False
         c = mir.callee(o.fn.blocks[o.data]["t"]) or ""
         if any(c.endswith(x) or x in c for x in INDEX_SOURCES): continue
